@@ -147,6 +147,26 @@ class ASTSchemaPrinter:
             body = first.replace('"""', '\\"""')
         else:
             has_leading_whitespace = len(first) > len(first.lstrip())
+
+            if (
+                has_leading_whitespace
+                and len(lines) > 1
+                and all(
+                    line[:1] in (" ", "\t") or not line.strip()
+                    for line in lines[1:]
+                )
+            ):
+                # Every line is indented: as a block string the indentation
+                # the lines share would be read as part of the block's own
+                # and lost, only a quoted string keeps it.
+                return "%s%s%s\n" % (
+                    "\n" if indent and not first_in_block else "",
+                    indent,
+                    print_ast(
+                        ast_node_from_value(definition.description, String)
+                    ),
+                )
+
             body = (
                 "\n".join(
                     [
